@@ -226,7 +226,19 @@ fn presets_for_cell(mut c: u64) -> Vec<u64> {
 
 pub fn run(run: &mut Run) {
     let lib = library();
-    let root_dir = run.scratch.join(format!("c18-{}", run.index));
+    // one run in eight lives under a directory whose name is not valid UTF-8 (legal on Unix):
+    // paths must be built from OsStr pieces, never through lossy string conversion
+    let root_dir = if run.index % 8 == 5 {
+        use std::os::unix::ffi::OsStringExt;
+        let mut name = format!("c18-{}-", run.index).into_bytes();
+        name.extend_from_slice(b"\xff\xfe");
+        run.scratch.join(std::ffi::OsString::from_vec(name))
+    } else {
+        run.scratch.join(format!("c18-{}", run.index))
+    };
+    if run.index % 8 == 5 {
+        run.fault("non_utf8_directory_name");
+    }
     let _ = std::fs::remove_dir_all(&root_dir);
     let t: &mut Tape = &mut *run.tape;
 
